@@ -47,6 +47,10 @@ type c14Task struct {
 	StaticCheck bool       `json:"static_check,omitempty"`
 	Transform   bool       `json:"transform,omitempty"` // ctx.EnableTransformation()
 	Twice       bool       `json:"twice,omitempty"`     // the run uses its context twice: a Parse (syntax check) and then the Parse / Evaluate proper
+	// Derive: the run first constructs its own parser AROUND the shared graph (a derived
+	// grammar built per request: Single / Optional / Memoize / SuppressError / SeqOf of the
+	// shared root) and parses with that; constructors must not touch their operands
+	Derive string `json:"derive,omitempty"`
 }
 
 type c14Case struct {
@@ -252,6 +256,9 @@ func (*c14Prop) Gen(r *Rand, pl *Plan) Case {
 		if r.Chance(1, 12) {
 			t.Huge = hugeSizes[r.Intn(len(hugeSizes))]
 		}
+		if !t.Construct && r.Chance(1, 10) {
+			t.Derive = []string{"single", "single", "opt", "memo", "suppress", "seq", "rtrim"}[r.Intn(7)]
+		}
 		if caseHuge > 0 && r.Chance(3, 4) {
 			t.Huge = caseHuge // the same placement for (most of) the runs: equal inputs get equal global positions
 		}
@@ -361,6 +368,25 @@ func (t *c14Task) observeRaw(p parsley.Parser) (obs string, raw interface{}) {
 		return t.observeCtx(p, t.soloCtx())
 	}
 	return t.observeCtx(p, nil)
+}
+
+// derive wraps a (shared) parser the way a caller building a derived grammar would.
+func (t *c14Task) derive(p parsley.Parser) parsley.Parser {
+	switch t.Derive {
+	case "single":
+		return combinator.Single(p)
+	case "opt":
+		return combinator.Optional(p)
+	case "memo":
+		return combinator.Memoize(p)
+	case "suppress":
+		return combinator.SuppressError(p)
+	case "seq":
+		return combinator.SeqOf(p).Bind(concatInterp)
+	case "rtrim":
+		return text.RightTrim(p, text.WsSpacesNl)
+	}
+	return p
 }
 
 // prepare builds the file set, reader and context of a run around an existing file.
@@ -737,7 +763,7 @@ func c14Run(c *c14Case, probeSequential bool) Verdict {
 			p = t.Own.construct()
 			owned[id] = p
 		}
-		obs[id], raws[id] = t.observeCtx(p, prepared[id])
+		obs[id], raws[id] = t.observeCtx(t.derive(p), prepared[id])
 	})
 	after := snapshotRoots()
 	v.Steps = info.Steps
@@ -870,7 +896,11 @@ func c14Run(c *c14Case, probeSequential bool) Verdict {
 			twin = t.Own.construct()
 		} else {
 			twin = twins[t.Graph]
+			if t.Derive != "" {
+				twin = c.Graphs[t.Graph].construct() // a twin of its own: nothing another baseline derived from is reused
+			}
 		}
+		twin = t.derive(twin)
 		solo := soloObserve(t, twin)
 		if solo == soloOverBudget {
 			v.Discard = "budget"
@@ -898,7 +928,7 @@ func c14Run(c *c14Case, probeSequential bool) Verdict {
 			same = owned[i]
 		}
 		if same != nil {
-			if post := soloObserve(t, same); post == soloOverBudget {
+			if post := soloObserve(t, t.derive(same)); post == soloOverBudget {
 				v.Discard = "budget"
 				return v
 			} else if post != solo {
@@ -1033,6 +1063,11 @@ func (*c14Prop) Shrink(cc Case) []Case {
 		if t.Huge > 0 {
 			k := clone()
 			k.Tasks[i].Huge = 0
+			out = append(out, k)
+		}
+		if t.Derive != "" {
+			k := clone()
+			k.Tasks[i].Derive = ""
 			out = append(out, k)
 		}
 		if len(t.Frags) > 0 {
